@@ -29,16 +29,16 @@ open BS.Depth
     parse is at most 14: `preserve_whitespace_tag_stack` and
     `string_container_stack` are always the tag stack filtered by name (`Inv`), so the popped tag is either the very
     object on top of a side stack or has a different name — `Tag.__eq__` returns from one of its first two exits. -/
-theorem depth_bounded_parse (nm : Names) (h0 : nm.outermostOnly = false) (deep : Nat) (evs : List Ev) :
+theorem depth_bounded_parse (nm : Names) (h0 : nm.outermostOnly = false) (hE : nm.scElif = false) (deep : Nat) (evs : List Ev) :
     parseDepth nm deep evs ≤ 14 := by
-  have := feedDepth_le nm h0 deep evs
+  have := feedDepth_le nm h0 hE deep evs
   simp only [parseDepth, call]; omega
 
 /-- nested `<pre>` inside `<pre>` with text after each: both side-stack comparisons are exercised -/
 def preNames : Names := { isPre := fun n => n == 6, isSc := fun n => n == 7 }
 example : parseDepth preNames 1000000 [.open 6 false, .open 6 false, .open 1 false, .close 1, .text, .close 6, .text, .close 6] = 14 := by
   decide
-example : parseDepth preNames 1000000 [.open 6 false, .open 7 false, .open 3 true, .close 6] ≤ 14 := depth_bounded_parse _ rfl _ _
+example : parseDepth preNames 1000000 [.open 6 false, .open 7 false, .open 3 true, .close 6] ≤ 14 := depth_bounded_parse _ rfl rfl _ _
 
 /-- The bound DEPENDS on `pushTag` pushing every whitespace-preserving tag: with the (tree-preserving) policy "only
     the outermost one is pushed", an inner `<pre>` is popped while the outer `<pre>` is on top of the side stack — two
@@ -98,16 +98,57 @@ example : copyDepth repaired true (atTop (chainWithTrailingText 2)) = 17 := by d
 
 /-! ## 4. pickling a document -/
 
-/-- `pickle.dumps(soup)` / `pickle.loads`: `__getstate__` renders, the state dict holds no link into the tree
-    (`dropLinks`) whether or not the root had been linked into the element chain, `__setstate__` re-parses: at most 15. -/
+/-- After a parse — for EVERY event sequence (balanced or not, tags left open at the end of input included) and EVERY
+    pair of builder tables (a name may be whitespace-preserving AND a string container, or neither) — no parser
+    attribute of the document object references a tree object: `tagStack` is back to the document itself and both
+    side stacks are empty. (`popTag` tests the two side stacks independently; `_feed` closes everything.) -/
+theorem after_parse_no_tree_object (nm : Names) (h0 : nm.outermostOnly = false) (hE : nm.scElif = false) (deep : Nat)
+    (evs : List Ev) : leftover (feedState nm deep evs) = [] :=
+  feedState_clean nm h0 hE deep evs
+
+/-- a name (12) that is in both tables, closed and left open -/
+def bothNames : Names := { isPre := fun n => n == 12 || n == 6, isSc := fun n => n == 12 || n == 7 }
+example : leftover (feedState bothNames 5 [.open 2 false, .open 12 false, .text, .close 12, .open 12 false, .text]) = [] := by decide
+example : (run bothNames 5 initState [.open 2 false, .open 12 false, .text]).1.sc.length = 1 := by decide
+
+/-- Hence the state `__getstate__` hands to pickle contains no tree object, linked root or not: the parser stacks are
+    empty and the root's links are dropped. -/
+theorem pickled_state_has_no_tree_object (cfg : Cfg) (h3 : cfg.dropLinks = true) (nm : Names) (h0 : nm.outermostOnly = false)
+    (hE : nm.scElif = false) (deep : Nat) (evs : List Ev) (rootLinked : Bool) :
+    stateRefs cfg rootLinked (feedState nm deep evs) = 0 := by
+  simp [stateRefs, feedState_clean nm h0 hE deep evs, h3]
+
+/-- `pickle.dumps(soup)` / `pickle.loads` of a parsed document (parsed from ANY event sequence under ANY tables, then
+    edited into any tree `l`, root linked or not): `__getstate__` renders, the pickler sees only flat values,
+    `__setstate__` re-parses: at most 15. -/
 theorem depth_bounded_pickle (cfg : Cfg) (h1 : cfg.neIdentity = true) (h2 : cfg.isXmlLoop = true) (h3 : cfg.dropLinks = true)
-    (nm : Names) (h0 : nm.outermostOnly = false) (deep : Nat) (rootLinked : Bool) (l : Loc) : pickleDepth cfg nm deep rootLinked l ≤ 15 := by
+    (nm : Names) (h0 : nm.outermostOnly = false) (hE : nm.scElif = false) (deep : Nat) (evs : List Ev) (rootLinked : Bool) (l : Loc) :
+    pickleDepth cfg nm deep rootLinked (feedState nm deep evs) l ≤ 15 := by
   have ha := (depth_bounded_render cfg h1 h2 l).2.2.2.2.2.2
-  have hb := feedDepth_le nm h0 deep (toEventsL (kidsOf l.node))
-  simp only [pickleDepth, picklerWalk, h3, Bool.not_true, Bool.and_false, Bool.false_eq_true, ↓reduceIte, call]
+  have hb := feedDepth_le nm h0 hE deep (toEventsL (kidsOf l.node))
+  simp only [pickleDepth, picklerWalk, pickled_state_has_no_tree_object cfg h3 nm h0 hE deep evs rootLinked, ↓reduceIte, call]
   omega
 
-example : pickleDepth repaired preNames 1000 true (atTop (chainWithTrailingText 3)) ≤ 15 := depth_bounded_pickle _ rfl rfl rfl _ rfl _ _ _
+example : pickleDepth repaired bothNames 1000 true (feedState bothNames 1000 [.open 12 false, .text, .close 12, .open 2 false])
+    (atTop (chainWithTrailingText 3)) ≤ 15 := depth_bounded_pickle _ rfl rfl rfl _ rfl rfl _ _ _ _
+
+/-- The bound DEPENDS on `popTag` testing the two side stacks independently: with `elif` (pop the string-container
+    stack only when the whitespace stack was not popped) a tag that is in both tables stays on
+    `string_container_stack` after the parse, `__getstate__` hands it to pickle, and the pickler walks the whole
+    document from it — whatever the document's shape. (The harness parses under such tables and inspects the real
+    `__getstate__()` for tree objects.) -/
+theorem pickle_unbounded_if_container_pop_is_elif (cfg : Cfg) (deep : Nat) (rootLinked : Bool) (l : Loc) :
+    sizeN l.node ≤ pickleDepth cfg { bothNames with scElif := true } deep rootLinked
+      (feedState { bothNames with scElif := true } deep [.open 12 false, .text, .close 12]) l := by
+  have : leftover (feedState { bothNames with scElif := true } deep [.open 12 false, .text, .close 12]) ≠ [] := by
+    simp [feedState, run, step, pushTag, popToTag, popTo, popTag, popEqPops, closeAll, initState, leftover, bothNames]
+  have h : stateRefs cfg rootLinked (feedState { bothNames with scElif := true } deep [.open 12 false, .text, .close 12]) ≠ 0 := by
+    unfold stateRefs
+    have : (leftover (feedState { bothNames with scElif := true } deep [.open 12 false, .text, .close 12])).length ≠ 0 := by
+      intro e; exact this (List.eq_nil_of_length_eq_zero e)
+    omega
+  simp only [pickleDepth, picklerWalk, h, ↓reduceIte, call]
+  omega
 
 /-! ## 5. text extraction and `.string` -/
 
@@ -210,9 +251,10 @@ theorem decodeOld_unbounded_trailing_sibling (cfg : Cfg) (h : cfg.neIdentity = f
     omega
 
 /-- `__deepcopy__` (hence `copy.copy`) and pickling (through `__getstate__` → `decode`) inherit it -/
-theorem deepcopyOld_pickleOld_unbounded (cfg : Cfg) (h : cfg.neIdentity = false) (nm : Names) (deep : Nat) (lk isDoc : Bool) (n : Nat) :
+theorem deepcopyOld_pickleOld_unbounded (cfg : Cfg) (h : cfg.neIdentity = false) (nm : Names) (deep : Nat) (lk isDoc : Bool)
+    (ps : PState) (n : Nat) :
     2 * n ≤ deepcopyDepth cfg isDoc (atTop (chainWithTrailingText n)) ∧
-    2 * n ≤ pickleDepth cfg nm deep lk (atTop (chainWithTrailingText n)) := by
+    2 * n ≤ pickleDepth cfg nm deep lk ps (atTop (chainWithTrailingText n)) := by
   cases n with
   | zero => exact ⟨Nat.zero_le _, Nat.zero_le _⟩
   | succ n =>
@@ -266,16 +308,17 @@ theorem isXmlOld_unbounded (cfg : Cfg) (h : cfg.isXmlLoop = false) (n : Nat) (si
 
 /-- pickling a document whose root is linked into the element chain (after `soup.insert(0, …)`, or a copy) with the
     links left in the state dict: the pickler nests at least once per element of the document, whatever its shape -/
-theorem pickleLinkedOld_unbounded (cfg : Cfg) (h : cfg.dropLinks = false) (nm : Names) (deep : Nat) (l : Loc) :
-    sizeN l.node ≤ pickleDepth cfg nm deep true l := by
-  simp only [pickleDepth, picklerWalk, h, Bool.not_false, Bool.and_self, ↓reduceIte, call]
+theorem pickleLinkedOld_unbounded (cfg : Cfg) (h : cfg.dropLinks = false) (nm : Names) (deep : Nat) (ps : PState) (l : Loc) :
+    sizeN l.node ≤ pickleDepth cfg nm deep true ps l := by
+  have : stateRefs cfg true ps ≠ 0 := by simp [stateRefs, h]
+  simp only [pickleDepth, picklerWalk, this, ↓reduceIte, call]
   omega
 
 example : stringDepth unrepaired (pureChain 9) = 10 := by decide
 example : 40 ≤ findAllDepth unrepaired ⟨some 1, false, false, none, true⟩ (atTop (pureChain 40)) := findAllStringOld_unbounded _ rfl _
 example : 8 ≤ decodeDepth unrepaired ⟨List.replicate 8 false, [], .tag 1 0 false false []⟩ := (isXmlOld_unbounded _ rfl 8 [] _ rfl).1
-example : 4 ≤ pickleDepth unrepaired preNames 0 true (atTop (chainWithTrailingText 3)) :=
-  Nat.le_trans (sizeN_chainTT 3) (pickleLinkedOld_unbounded unrepaired rfl preNames 0 (atTop (chainWithTrailingText 3)))
+example : 4 ≤ pickleDepth unrepaired preNames 0 true initState (atTop (chainWithTrailingText 3)) :=
+  Nat.le_trans (sizeN_chainTT 3) (pickleLinkedOld_unbounded unrepaired rfl preNames 0 initState (atTop (chainWithTrailingText 3)))
 
 /-- `!=` stops at its first exit when adjacent levels differ in name: alternating names are bounded even in the
     unrepaired accounting (why the suite's single shape never showed the defect). -/
